@@ -15,20 +15,32 @@ def run(run, harness, replay=None):
         events = [replay["event"]] if "event" in replay else []
         cases = [replay["ssa"]] if "ssa" in replay and not events else []
     else:
-        cfg = "RegAlloc_quick.cfg" if tier == "quick" else "RegAlloc_thorough.cfg"
-        r = tlc("RegAlloc", cfg, workers=8, coverage=True, timeout=3000, xmx="8g")
+        # thorough: the design check and the emission of the circuits are separate runs; the cases are streamed to disk and
+        # capped (the space of 3-gate circuits over 3 input bits has millions of members: breadth-first order, smallest first)
+        cfg = "RegAlloc_quick.cfg" if tier == "quick" else "RegAlloc_thorough_mc.cfg"
+        r = tlc("RegAlloc", cfg, workers=8, coverage=True, timeout=6000, xmx="8g")
         run.add_tlc("RegAlloc/" + cfg, r)
         run.cov["tlc_coverage"] = {k: v for k, v in r.coverage.items() if k.startswith("RegAlloc.")}
         for act in ("AddGate", "Finish", "ProcessGate"):
             if r.coverage.get("RegAlloc." + act, {}).get("distinct", 0) == 0:
                 raise ToolError("vacuity: action %s never taken" % act)
-        cases = r.tagged("CASE")
-        run.cov["exhaustive"] = True
+        cpath = os.path.join(run.work, "cases.ndjson")
+        if tier == "quick":
+            cases = r.tagged("CASE")
+            write_ndjson(cpath, cases)
+            run.cov["exhaustive"] = True
+        else:
+            r2, ncases = tlc_cases("RegAlloc", "RegAlloc_thorough.cfg", cpath, workers=8, timeout=6000, xmx="8g", max_cases=400000)
+            run.add_tlc("RegAlloc/emit", r2)
+            run.cov["emitted_cases"] = ncases
+            run.cov["exhaustive"] = ncases < 400000
+            cases = [1]
         events = []
     if cases:
         cpath = os.path.join(run.work, "cases.ndjson")
         tpath = os.path.join(run.work, "trace.ndjson")
-        write_ndjson(cpath, cases)
+        if replay:
+            write_ndjson(cpath, cases)
         run_harness(harness, ["reg-convert", cpath, tpath], env={"VERIF_SEED": run.seed})
         events = read_ndjson(tpath)
     # compiled corpus circuits (impl -> spec only)
